@@ -351,7 +351,7 @@ class Signals:
         self.w.main_wake = self._main_wake
         self.w.on_main_line = self._on_main_line
         self.is_main = lambda: self.w.current is self.w.main
-        self.app_is_main = True     # False: the app runs as a non-main thread (C12)
+        self.app_is_main = True     # (kept for callers; non-main applications run on a real spawned thread)
 
     def _check_main(self, what):
         if not (self.is_main() and self.app_is_main):
